@@ -2,8 +2,7 @@
 (* Small-scope enumeration of integer expression shapes for FerretSem (C01, C02, C09):
    every integer type x every operator x every pair of boundary operands.  The generator decides what
    is *asked*; what the answer must be is FerretSem's EvalE, evaluated by TLC when the recorded output
-   is validated.  Excluded: division / remainder by zero and MIN / -1 (the properties give them no
-   defined result). *)
+   is validated.  Excluded: division / remainder by zero (the properties give it no defined result). *)
 EXTENDS BigNum, TLC, Json
 
 Types == { [s |-> sg, b |-> w] : sg \in BOOLEAN, w \in {8, 16, 32, 64, 128, 256} }
@@ -20,7 +19,10 @@ Boundary(ty) ==
        \cup (IF ty.s THEN { Z(TRUE, m) : m \in {<<1>>, <<2>>, <<7>>, mx, NAdd(mx, <<1>>), NDivS(mx, 2).q, NPow2(ty.b \div 2)} } ELSE {})
 
 IsMin(ty, x) == ty.s /\ x.neg /\ x.mag = NAdd(Max(ty), <<1>>)
-Defined(ty, op, a, b) == (op \in {"/", "%"}) => (b.mag # <<>> /\ ~(IsMin(ty, a) /\ b = Z(TRUE, <<1>>)))
+Defined(ty, op, a, b) == (op \in {"/", "%"}) => b.mag # <<>>
+(* MIN / -1 and MIN % -1: the quotient 2^(b-1) wraps to MIN, the remainder is 0.  Emitted with a tag so that the
+   harness runs each of them in a program of its own (hardware division traps on this operand pair). *)
+Special(ty, op, a, b) == IF op \in {"/", "%"} /\ IsMin(ty, a) /\ b = Z(TRUE, <<1>>) THEN "min-by-minus-one" ELSE ""
 
 Lit(x) == [neg |-> x.neg, d |-> NToDec(x.mag)]
 
@@ -37,5 +39,6 @@ Unary == /\ ty' \in Types
          /\ a' \in Boundary(ty') /\ b' = Z(FALSE, <<>>)
 Next == op = "" /\ (Binary \/ Unary)          \* one step from the initial state to each case
 Spec == Init /\ [][Next]_vars
-Emit == ty.b = 0 \/ PrintT("@@CASE " \o ToJson([ty |-> TyName(ty), op |-> op, a |-> Lit(a), b |-> Lit(b)]))
+Emit == ty.b = 0 \/ PrintT("@@CASE " \o ToJson([ty |-> TyName(ty), op |-> op, a |-> Lit(a), b |-> Lit(b),
+                                                  sp |-> IF op \in ArithOps THEN Special(ty, op, a, b) ELSE ""]))
 =============================================================================
